@@ -394,7 +394,7 @@ func (ch *n3Child) probes(batch int) {
 	r.Count("n3.probe_ok.mempool-checktx", 1)
 	// evidence: valid duplicate-vote evidence from an honest peer becomes pending
 	evOK := true
-	if h := n.store.Height(); h >= 2 {
+	if h := n.store.Height(); h-1 >= n.genDoc.InitialHeight {
 		ev, err := n.dupVoteEvidence(h-1, ch.c.Rand("n3-evprobe", batch*1000+n.probeSeq))
 		if err == nil {
 			pb, _ := types.EvidenceToProto(ev)
@@ -739,6 +739,7 @@ func stageN3x(c *verdict.Ctx, r *rec, arg string, init bool) {
 			r.Violation("node-goroutine-leak-after-hostile-batch", fmt.Sprintf("%d goroutines are alive after the batch although only one honest peer is connected (idle node: about 50)", ng),
 				map[string]interface{}{"stream": stream, "batch": b, "goroutines": goroutineDump()})
 		}
+		r.Count(fmt.Sprintf("%s.batches_on_chain_with_initial_height_%d", stream, n.genDoc.InitialHeight), 1)
 		if init {
 			r.Count("n3init.batches", 1)
 			break // one initial height per process
@@ -847,14 +848,20 @@ func runN3lite(c *verdict.Ctx) {
 	type job struct {
 		stage string
 		todo  []string
+		ih    int64
 	}
 	jobs := make([]job, kids)
 	for b := 0; b < nb; b++ {
 		jobs[b%kids].stage = "n3"
 		jobs[b%kids].todo = append(jobs[b%kids].todo, strconv.Itoa(b))
 	}
-	for k := 0; k < c.N(2, 6); k++ {
-		jobs = append(jobs, job{"n3init", []string{strconv.Itoa(k)}})
+	// some children run a chain whose genesis sets initial_height > 1 (7 and 1000)
+	jobs[1%kids].ih = 7
+	if c.Thorough() {
+		jobs[2%kids].ih = 1000
+	}
+	for k := 0; k < c.N(3, 6); k++ {
+		jobs = append(jobs, job{"n3init", []string{strconv.Itoa(k)}, []int64{1, 7, 1000}[k%3]})
 	}
 	book := &avoidBook{sites: map[string][][]string{}, sigs: map[string]bool{}}
 	var wg sync.WaitGroup
@@ -874,7 +881,7 @@ func runN3lite(c *verdict.Ctx) {
 					return
 				}
 				arg := strings.Join(todo, ",")
-				res := spawn(c, dir, jb.stage, arg, false, 12*time.Minute, "VERIF_C17_AVOID="+book.env())
+				res := spawn(c, dir, jb.stage, arg, false, 12*time.Minute, "VERIF_C17_AVOID="+book.env(), "VERIF_C17_INITIAL_HEIGHT="+strconv.FormatInt(jb.ih, 10))
 				mu.Lock()
 				res.rec.apply(c, "")
 				mu.Unlock()
